@@ -420,9 +420,12 @@ class CharacterBoosts(Characters):
         for t in tokens(value, analyzer, kwargs):
             seen[t.text].append((t.pos, t.startchar, t.endchar, t.boost))
 
+        fb = self.field_boost
         for w, poses in iteritems(seen):
             value, summedboost = self.encode(poses)
-            yield (w, len(poses), summedboost, value)
+            # Like every other format, scale the posting weight by the field
+            # boost (encode() already does so for the weight in the value)
+            yield (w, len(poses), summedboost * fb, value)
 
     def encode(self, poses):
         fb = self.field_boost
